@@ -1380,3 +1380,300 @@ def rule_growth_progress(rep, fb, floor=2, name="GROW.progress"):
             r.check(ok, key, where, "%s takes ceil(capacity * factor) as the new capacity without forcing it above the old one: no growth from capacity 0 or with a factor <= 1" % f["qual"],
                     detail="compared with the old capacity, + 1 as fallback")
     return r.done()
+
+
+# ------------------------------------------------------------------------------------------------
+# L-26  call sites of one kernel (or of tabled sibling kernels) size a written buffer by the same kernel argument
+
+_SIZING_SIBLINGS = {"kernel::RegularArray_combinations_64": "kernel::ListArray_combinations_64"}
+
+
+def rule_sibling_sizing(rep, fb, floor=60, name="KBOUND.sibling-sizing"):
+    import re as _re
+    from . import kwrites
+    from .kspec import cexpr, unparse
+    r = rep.rule(name, "where KBOUND.affine cannot decide an allocation symbolically it is still cross-checked: over all call sites of one kernel (RegularArray_combinations_64 counted with its sibling ListArray_combinations_64), "
+                 "a buffer the kernel writes is sized by the same kernel argument(s) - a site that sizes it by a different argument than its siblings has the wrong length for some inputs", floor=floor)
+    api = cs.kernel_api(fb)
+    kw = kwrites.kernel_api_writes(fb)
+    sites = cs.kernel_sites(fb, api)
+
+    def alloc_expr(arg, s):
+        e = arg
+        while True:
+            if e[0] in ("deref", "addr"):
+                e = e[1]
+            elif e[0] == "cast":
+                e = e[3]
+            elif e[0] == "mcall" and e[1] in ("data", "get", "ptr"):
+                e = e[3]
+            else:
+                break
+        if e[0] != "var":
+            return None
+        ds = cs.scoped_defs(s).get(e[1]) or []
+        if len(ds) != 1 or ds[0][3] is None:
+            return None
+        init = ds[0][3]
+        if init[0] == "ctor" and _re.match(r"(const )?Index(Of<.*>|8|U8|32|U32|64)(?!\w)", str(ds[0][2])) and init[2]:
+            return init[2][0]
+        if init[0] == "call" and init[1][0] == "fn" and init[1][1] == "kernel::malloc" and len(init[2]) == 2:
+            n = init[2][1]
+            while n[0] == "cast":
+                n = n[3]
+            if n[0] == "bin" and n[1] == "*":
+                for a, b in ((n[2], n[3]), (n[3], n[2])):
+                    bb = b
+                    while bb[0] == "cast":
+                        bb = bb[3]
+                    if bb[0] == "sizeof":
+                        return a
+        return None
+    groups = {}
+    for key, s in cs.keyed(sites):
+        names = api[s.name]["overloads"][0][0]
+        args = s.call[2]
+        if len(names) != len(args):
+            continue
+        wr = kw.get(s.name, set())
+        byval = {}
+        for n_, a in zip(names, args):
+            byval.setdefault(repr(_norm_len(a, {})), set()).add(n_)
+        for pn, a in zip(names, args):
+            if pn not in wr:
+                continue
+            ae = alloc_expr(a, s)
+            if ae is None:
+                continue
+            labels = byval.get(repr(_norm_len(ae, {})), set())
+            if not labels:
+                if s.name not in _SIZING_SIBLINGS and s.name not in _SIZING_SIBLINGS.values():
+                    continue   # sized by an expression that is not itself a kernel argument: left to KBOUND.affine
+                labels = {"<" + unparse(cexpr(ae))[:40] + ">"}   # tabled sibling kernels share their scratch-buffer contract: compare the expression too
+            groups.setdefault((_SIZING_SIBLINGS.get(s.name, s.name), pn), []).append((key, s, frozenset(labels), unparse(cexpr(ae))[:40]))
+    for (k, pn), members in sorted(groups.items()):
+        if len(members) < 2:
+            continue
+        common = frozenset.intersection(*[m[2] for m in members])
+        # majority label set
+        counts = {}
+        for m in members:
+            for l in m[2]:
+                counts[l] = counts.get(l, 0) + 1
+        best = max(counts.items(), key=lambda kv: kv[1])[0]
+        for key, s, labels, txt in members:
+            r.check(bool(common) or best in labels, "%s:%s" % (key, pn), "%s:%d" % (s.func["file"], s.line),
+                    "%s sizes the buffer bound to '%s' of %s by its argument %s (%s), while the other call sites of this kernel family size it by '%s'" % (s.func["qual"], pn, s.name, sorted(labels), txt, best),
+                    detail="sized by %s like its siblings" % (sorted(common) or best))
+    return r.done()
+
+
+# ------------------------------------------------------------------------------------------------
+# L-27  an operand is classified by class only after VirtualArrays have been unwrapped
+
+def rule_virtual_unwrap_first(rep, fb, floor=2, name="VIRTUAL.unwrap-first"):
+    r = rep.rule(name, "a chain of class tests (dynamic_casts) on an operand that also has a VirtualArray arm uses the generated array only after classifying it: the arm re-binds the operand or re-dispatches, "
+                 "or the operand was unwrapped (x = virt->array()) before the chain - otherwise an option/indexed/union array inside a VirtualArray takes the branch meant for plain arrays", floor=floor)
+    for f in fb.lib_funcs(inst=False):
+        n = [0]
+
+        def onblock(stmts, cont, f=f):
+            for i, s in enumerate(stmts):
+                if s[0] != "if":
+                    continue
+                arms, el = _chain(s)
+                if len(arms) < 2:
+                    continue
+                for c, blk in arms:
+                    if not (c[0] == "declcond" and "VirtualArray" in str(c[2]) and c[3] is not None):
+                        continue
+                    subj = {v[1] for v in find_all((c[3],), lambda k: k[0] == "var")}
+                    # the other arms test the same subject against other classes
+                    others = [c2 for c2, _b in arms if c2 is not c and find_all((c2,), lambda k: k[0] == "cast" and k[1] == "dynamic" and {v[1] for v in find_all((k[3],), lambda m: m[0] == "var")} & subj)]
+                    if not others:
+                        continue
+                    n[0] += 1
+                    key = "%s#chain%d" % (f["qual"], n[0])
+                    rebinds = bool(find_all(blk, lambda k: k[0] == "assign" and k[1][0] == "var" and k[1][1] in subj))
+                    redispatch = bool(find_all(blk, lambda k: k[0] == "mcall" and k[1] == f["name"]))
+                    pre = False
+                    for t in stmts[:i]:
+                        if t[0] in ("while", "if") and t[1][0] == "declcond" and "VirtualArray" in str(t[1][2]) and find_all(t[2], lambda k: k[0] == "assign" and k[1][0] == "var" and k[1][1] in subj):
+                            pre = True
+                    r.check(rebinds or redispatch or pre, key, "%s:%d" % (f["file"], s[-1]),
+                            "%s classifies `%s` by class and, in the VirtualArray arm, uses the generated array without classifying it: a virtual option/indexed/union array is treated like a plain one" % (f["qual"], sorted(subj)[0] if subj else "?"),
+                            detail="unwrapped before the class tests")
+        cs.each_block_cont(f["body"], onblock)
+    return r.done()
+
+
+# ------------------------------------------------------------------------------------------------
+# L-28  a node's own identities_/parameters_ go only onto a rebuilt node of its own kind
+
+_NODE_KIND = (("IndexedOptionArray", "option"), ("ByteMaskedArray", "option"), ("BitMaskedArray", "option"), ("UnmaskedArray", "option"), ("IndexedArray", "indexed"), ("ListOffsetArray", "list"),
+              ("ListArray", "list"), ("RegularArray", "list"), ("NumpyArray", "numpy"), ("UnionArray", "union"), ("RecordArray", "record"), ("EmptyArray", "empty"))
+_OWN_META_TABLE = {
+    "EmptyArray::toNumpyArray": "a conversion of the node itself into its NumpyArray equivalent: same position in the tree, same metadata",
+    "IndexedArrayOf::fillna": "the option node is replaced, at the same position, by the union of its content and the fill value: the replacement keeps the node's parameters",
+}
+
+
+def _node_kind(c):
+    c = str(c).replace("Of", "")
+    for n, k in _NODE_KIND:
+        if c.startswith(n):
+            return k
+    return None
+
+
+def rule_own_metadata(rep, fb, floor=150, name="REBUILD.own-metadata"):
+    r = rep.rule(name, "identities_ and parameters_ describe the node that holds them: they are passed to a constructor only when the constructed node is the same kind of node "
+                 "(list, option, indexed, union, record, numpy), never to a node of another kind inserted below or above it - there they have the wrong length and change the item type", floor=floor)
+    for f in fb.lib_funcs(inst=False):
+        ck = _node_kind(f.get("cls") or "")
+        if not ck:
+            continue
+        kinds = {ck, "option"} if (f.get("cls") or "").startswith("IndexedArrayOf") else {ck}
+        n = 0
+        for m in find_all(f["body"], lambda k: k[0] in ("make", "ctor") and _node_kind(k[1]) and len(k[2]) >= 3):
+            a0, a1 = m[2][0], m[2][1]
+            own = (a0 == ("member", ("this",), "identities_")) or (a1 == ("member", ("this",), "parameters_"))
+            if not own:
+                continue
+            n += 1
+            key = "%s#%s#%d" % (f["qual"], m[1], n)
+            tk = _node_kind(m[1])
+            if tk not in kinds and f["qual"] in _OWN_META_TABLE:
+                r.excepted(key, _OWN_META_TABLE[f["qual"]])
+                r.ok(key)
+                continue
+            r.check(tk in kinds, key, "%s:%d" % (f["file"], m[-1] if isinstance(m[-1], int) else f["line"]),
+                    "%s gives its own identities_/parameters_ to a %s, a node of another kind (%s, not %s)" % (f["qual"], m[1], tk, "/".join(sorted(kinds))), detail="same kind of node")
+    return r.done()
+
+
+# ------------------------------------------------------------------------------------------------
+# L-29  option and union nodes rebuilt around per-content results are simplified
+
+def rule_rebuilt_simplified(rep, fb, floor=25, name="CANON.rebuilt-simplified"):
+    r = rep.rule(name, "in the (axis, depth) operations, fillna and combinations of the option and union classes, a node of the class's own kind built around the result of an operation on its content(s) has "
+                 "simplify_optiontype() / simplify_uniontype() applied before it is returned: the operation may return an option or union (\"the operation that made it might have forgotten to call simplify\", as the validity check puts it)", floor=floor)
+    methods = ("num", "offsets_and_flattened", "rpad", "rpad_and_clip", "localindex", "combinations", "fillna")
+    for f in fb.lib_funcs(inst=False):
+        ck = _node_kind(f.get("cls") or "")
+        if ck not in ("option", "union", "indexed") or f["name"] not in methods:
+            continue
+        simplified = set()
+        for m in find_all(f["body"], lambda k: k[0] == "mcall" and k[1] in ("simplify_optiontype", "simplify_uniontype")):
+            for x in find_all((m[3],), lambda k: k[0] in ("make", "ctor")):
+                simplified.add(id(x))
+            for v in find_all((m[3],), lambda k: k[0] == "var"):
+                simplified.add(("var", v[1]))
+        n = 0
+        for m in find_all(f["body"], lambda k: k[0] in ("make", "ctor") and _node_kind(k[1]) in ("option", "union", "indexed") and len(k[2]) >= 3):
+            ops = find_all(tuple(m[2]), lambda k: k[0] == "mcall" and k[1] in methods + ("project", "carry"))
+            cvars = [a for a in m[2] if a[0] == "var" and a[1] in ("contents", "next", "out", "content", "nextcontent")]
+            if not ops and not cvars:
+                continue
+            n += 1
+            ok = id(m) in simplified
+            if not ok:
+                for d in find_all(f["body"], lambda k: k[0] == "decl" and k[3] is not None and find_all((k[3],), lambda x: x is m)):
+                    if ("var", d[1]) in simplified:
+                        ok = True
+            r.check(ok, "%s#%s#%d" % (f["qual"], m[1], n), "%s:%d" % (f["file"], m[-1] if isinstance(m[-1], int) else f["line"]),
+                    "%s wraps the result of an operation on its content in a %s without simplifying it" % (f["qual"], m[1]), detail="simplify_*type() applied")
+    return r.done()
+
+
+# ------------------------------------------------------------------------------------------------
+# L-30  identities of the min / max reducers
+
+def rule_reducer_identity(rep, fb, floor=20, name="REDUCER.identity"):
+    r = rep.rule(name, "ReducerMin::apply_<T> and ReducerMax::apply_<T> start from the largest / smallest value of T (numeric_limits<...>::max / min / infinity, negated for max): "
+                 "a literal such as 0 as the starting value wins against every group whose items all lie on the other side of it", floor=floor)
+    for f in fb.lib_funcs(inst=False):
+        if (f.get("cls") or "") not in ("ReducerMin", "ReducerMax") or not f["name"].startswith("apply_") or f["name"] in ("apply_bool",):
+            continue
+        ds = [d for d in find_all(f["body"], lambda k: k[0] == "decl" and k[1] == "initial")]
+        if not ds:
+            continue
+        d = ds[0]
+        uses_limits = d[3] is not None and bool(find_all((d[3],), lambda k: (k[0] == "call" and ("numeric_limits" in str(k[1][1]) or str(k[1][1]).split("::")[-1] in ("infinity", "max", "min", "lowest"))) or (k[0] == "mcall" and k[1] in ("infinity", "max", "min", "lowest"))))
+        r.check(uses_limits, "%s#initial" % f["qual"], "%s:%d" % (f["file"], d[-1]), "%s starts from the literal %s instead of the extreme value of its type" % (f["qual"], str(d[3])[:30]), detail="numeric_limits")
+    return r.done()
+
+
+# ------------------------------------------------------------------------------------------------
+# L-31  the depth queries of a record agree on the zero-field case
+
+def rule_zero_field_depths(rep, fb, floor=4, name="DEPTH.zero-field"):
+    r = rep.rule(name, "for a record with no fields, purelist_depth() is 1, and minmax_depth(), branch_depth() of RecordArray and RecordForm answer the same depth 1 in their `contents_.empty()` branch: "
+                 "the negative-axis wrap combines these queries and is off by one level when they disagree", floor=floor)
+    for f in fb.lib_funcs(inst=False):
+        if (f.get("cls") or "") not in ("RecordArray", "RecordForm") or f["name"] not in ("minmax_depth", "branch_depth"):
+            continue
+        found = False
+        for s in find_all(f["body"], lambda k: k[0] == "if" and find_all((k[1],), lambda m: m[0] == "mcall" and m[1] == "empty")):
+            rets = find_all(s[2], lambda k: k[0] == "return" and k[1] is not None)
+            if not rets:
+                continue
+            found = True
+            consts = [c[1] for c in find_all((rets[0][1],), lambda k: k[0] == "const" and isinstance(k[1], int) and not isinstance(k[1], bool))]
+            r.check(bool(consts) and all(c == 1 for c in consts), "%s#empty" % f["qual"], "%s:%d" % (f["file"], rets[0][-1]),
+                    "%s answers depth %s for a record without fields (purelist_depth says 1)" % (f["qual"], consts), detail="depth 1")
+        if not found:
+            r.fail("%s#empty" % f["qual"], "%s:%d" % (f["file"], f["line"]), "%s has no branch for a record without fields" % f["qual"])
+    return r.done()
+
+
+# ------------------------------------------------------------------------------------------------
+# L-32  copying a JSON value: each type test is paired with its own getter and writer
+
+def rule_copyjson_pairs(rep, fb, floor=5, name="TABLE.copyjson"):
+    r = rep.rule(name, "in copyjson (parameters into Form JSON) every arm `value.IsX()` writes with `writer.X'(value.GetX())` of the same type family (Bool, Int/Int64, Uint64, Double, String), and the integer arms cover "
+                 "64 bits: a Double arm that writes Int64, or an Int-only integer arm, changes or rejects parameter values", floor=floor)
+    fs = [f for f in fb.lib_funcs(inst=False) if f["name"] == "copyjson"]
+    if not fs:
+        raise AnalysisError("copyjson not found in io/json.cpp")
+    fam = {"Bool": "Bool", "Int": "Int", "Int64": "Int", "Uint": "Int", "Uint64": "Int", "Double": "Double", "String": "String"}
+    f = fs[0]
+    tests = set()
+    n = 0
+    for s in find_all(f["body"], lambda k: k[0] == "if"):
+        t = [m for m in find_all((s[1],), lambda k: k[0] == "mcall" and k[1].startswith("Is") and k[1][2:] in fam)]
+        if not t:
+            continue
+        x = t[0][1][2:]
+        tests.add(x)
+        n += 1
+        gets = [m[1][3:] for m in find_all(s[2], lambda k: k[0] == "mcall" and k[1].startswith("Get"))]
+        writes = [m[1] for m in find_all(s[2], lambda k: k[0] == "mcall" and k[1] in fam and k[3] == ("var", "writer"))]
+        ok = bool(gets) and bool(writes) and all(g == x for g in gets) and all(fam[w] == fam[x] for w in writes)
+        r.check(ok, "copyjson#Is%s" % x, "%s:%d" % (f["file"], s[-1]), "copyjson: the arm for Is%s() reads with Get%s and writes with %s" % (x, gets, writes), detail="same type family")
+    r.check("Int64" in tests, "copyjson#int64", "%s:%d" % (f["file"], f["line"]), "copyjson has no IsInt64() arm: integers beyond 32 bits are not copied", detail="64-bit integers covered")
+    return r.done()
+
+
+# ------------------------------------------------------------------------------------------------
+# L-33  the base pointer of a NumpyArray's buffer is not element 0 of the array
+
+def rule_raw_base_pointer(rep, fb, floor=2, name="NUMPY.raw-base"):
+    r = rep.rule(name, "ptr_.get() is the start of the (possibly shared) buffer, not of this array: in NumpyArray methods it is passed to element-processing code only together with byteoffset_ "
+                 "(or to a constructor / whole-buffer copy that receives byteoffset_ separately); everything else uses data()", floor=floor)
+    for f in fb.lib_funcs(inst=False):
+        if (f.get("cls") or "") != "NumpyArray":
+            continue
+        n = 0
+        for c in find_all(f["body"], lambda k: k[0] in ("call", "mcall", "make", "ctor")):
+            args = c[2] if c[0] in ("call", "make", "ctor") else c[4]
+            raw = [a for a in args if find_all((a,), lambda k: (k[0] == "mcall" and k[1] == "get" and k[3] == ("member", ("this",), "ptr_")) or (k[0] == "cast" and k[3] == ("member", ("this",), "ptr_")) or (k[0] == "deref" and k[1] == ("member", ("this",), "ptr_")))]
+            if not raw:
+                continue
+            n += 1
+            nm = str(c[1] if c[0] in ("mcall", "make", "ctor") else c[1][1])
+            withoff = any(find_all((a,), lambda k: k == ("member", ("this",), "byteoffset_") or (k[0] == "mcall" and k[1] == "byteoffset")) for a in args)
+            whole = "copy_to" in nm or nm.endswith("lib_tostring")   # whole-buffer copy; lib_tostring only reports which device owns the allocation
+            r.check(withoff or whole, "%s#%s#%d" % (f["qual"], nm.replace("kernel::", ""), n), "%s:%d" % (f["file"], c[-1] if isinstance(c[-1], int) else f["line"]),
+                    "%s passes ptr_.get() - the start of the shared buffer, byteoffset_ not applied - to %s" % (f["qual"], nm), detail="byteoffset_ applied or whole-buffer copy")
+    return r.done()
